@@ -221,8 +221,22 @@ def generate(seed: int, tier: str = "quick") -> dict:
         program.append(o)
         faults.append({"kind": "reject:" + o["op"].split(".")[1] + ":beyond_limit", "bar": b})
     program = [p for _, p in sorted(enumerate(program), key=lambda e: (e[1]["bar"], PHASES.index(e[1]["phase"]), e[0]))]
-    if A.add_bystander(R.sub(seed, "bystander"), world) is not None:
+    by = A.add_bystander(R.sub(seed, "bystander"), world)
+    if by is not None:
         faults.append({"kind": "second_market_of_the_same_kind_registered_first"})
+        rt = R.sub(seed, "same_risk_file")
+        if rt.random() < 0.4:
+            # both pools are built from the SAME risk-parameter file, then the owner edits the other pool's table in place
+            # (bonus and threshold of one token): this pool's liquidations follow this pool's table
+            import copy as _copy
+
+            mw0 = A.market_of(world)
+            by["risk"] = _copy.deepcopy(mw0["risk"])
+            t = rt.choice(sorted(by["tokens"]))
+            r = by["risk"][t]
+            program.insert(0, {"bar": -2, "phase": "pre_run", "op": "aave.edit_risk", "m": by["name"],
+                               "a": {"token": t, "ltv": int(r["ltv"]), "lt": max(int(r["ltv"]) + 100 if r["lt"] else 0, int(r["lt"] * 0.9)), "bonus": int(r["bonus"]) + rt.choice([300, 700, 1200])}})
+            faults.append({"kind": "two_pools_from_one_risk_file_the_other_one_edited_in_place"})
     return {"property": ID, "seed": seed, "world": world, "program": program, "faults": faults}
 
 
